@@ -258,7 +258,8 @@ theorem half_close_in_handler (e : Env) (r : Req) (hr : e.req = some r) (hroute 
 
 /-- The figures handed to the statistics collector: the user of the request, downlink = bytes written to the client,
 uplink = bytes handed to the remote side (DialStream's payload, counted once, plus what the copy wrote). For every
-interleaving and every wait-read outcome. -/
+interleaving and every wait-read outcome, INCLUDING schedules whose loops end with `fail` labels (copy errors): the
+figures are then the bytes delivered up to the error. -/
 theorem stats_exact (e : Env) (r : Req) (hr : e.req = some r) (hroute : e.routeErr = none)
     (u : String) (d up : Nat) (h : Action.collect u d up ∈ handleConn e) :
     u = r.user ∧ up = (targetReceived (handleConn e)).length ∧ d = (clientReceived (handleConn e)).length := by
@@ -284,6 +285,31 @@ theorem stats_exact (e : Env) (r : Req) (hr : e.req = some r) (hroute : e.routeE
 
 example : Action.collect "u" 1 3 ∈ handleConn sampleEnv := by decide
 
+/-- The session IS recorded whenever BidirectionalCopy returned — for every schedule, in particular those in which a loop
+ends with a `fail` label (read or write error, e.g. the remote resets after data was relayed): the collect call comes before
+the handler's `if err != nil { return }`. Together with `stats_exact` the recorded figures are the bytes delivered each way
+up to the error. (`copied ∈ trace ∧ blocked ∉ trace` says exactly that both loops have returned.) -/
+theorem stats_recorded (e : Env) (r : Req) (hr : e.req = some r) (hroute : e.routeErr = none)
+    (a b : Bytes) (hc : Action.copied a b ∈ handleConn e) (hnb : Action.blocked ∉ handleConn e) :
+    Action.collect r.user (clientReceived (handleConn e)).length (targetReceived (handleConn e)).length ∈ handleConn e := by
+  have key : ∃ d up, Action.collect r.user d up ∈ handleConn e := by
+    rw [handleConn_cases e r hr hroute] at hc hnb ⊢
+    cases hw : waits e r
+    · simp only [hw, Bool.false_eq_true, if_false, List.mem_cons, reduceCtorEq, false_or, not_or, not_false_eq_true, true_and] at hc hnb ⊢
+      exact ⟨_, _, collect_of_copied_fromDial e r false r.payload 0 a b hc hnb⟩
+    · simp only [hw, if_true, List.mem_cons, reduceCtorEq, false_or, not_or, not_false_eq_true, true_and] at hc hnb ⊢
+      obtain ⟨h1, h2, h3, h4, hm⟩ := copied_mem_afterWait e r a b hc
+      rw [afterWait_ok e r h1 h2 h3 h4] at hnb ⊢
+      simp only [List.mem_cons, reduceCtorEq, false_or, not_or, not_false_eq_true, true_and] at hnb ⊢
+      exact ⟨_, _, collect_of_copied_fromDial e r true _ _ a b hm hnb⟩
+  obtain ⟨d, up, h⟩ := key
+  obtain ⟨_, hup, hd⟩ := stats_exact e r hr hroute r.user d up h
+  rw [← hup, ← hd]; exact h
+
+/-- a session that relayed data and then ended with errors on both loops is recorded with what was delivered -/
+example : Action.collect "u" 1 3 ∈ handleConn { sampleEnv with sched := [.chunk .right 1, .chunk .left 1, .fail .right, .fail .left] } := by decide
+
+
 end SSV.C13
 
 #print axioms SSV.C13.wait_decision
@@ -298,3 +324,4 @@ end SSV.C13
 #print axioms SSV.C13.half_close_eof
 #print axioms SSV.C13.half_close_in_handler
 #print axioms SSV.C13.stats_exact
+#print axioms SSV.C13.stats_recorded
